@@ -26,6 +26,47 @@ def gen_cases(tier, seed, tag, per_group, n_pres, extra_random=0, special_bias=0
     return cases
 
 
+def gen_pseudo_cases(tier, seed, tag, per_group, n_pres=2, groups=range(1, 75)):
+    """Pseudo-symmetric sub-family: triclinic / monoclinic / orthorhombic crystals (tetragonal .. hexagonal optional)
+    on a near-metric lattice with mostly special positions - the members whose group an angular or relative
+    tolerance would raise, although every distance criterion within 10x the tolerance keeps it."""
+    ss = np.random.SeedSequence([seed, tag, 4711])
+    groups = [no for no in groups for _ in range(per_group)]
+    cases = []
+    for cid, (no, child) in enumerate(zip(groups, ss.spawn(len(groups)))):
+        s = int(child.generate_state(1)[0])
+        for j in range(n_pres):
+            cases.append({"kind": "pseudo", "crystal": 40_000_000 + cid, "group_no": no, "seed": s, "pres": j, "group": j % 2,
+                          "special_bias": 0.9, "near_metric": True})
+    return cases
+
+
+def gen_general_first_cases(tier, seed, tag, n_pres=2):
+    """Letter-alphabet edge: the general position (the last letter of the group, 'A' = the 27th in Pmmm) occupied
+    together with special positions, in the groups with the longest Wyckoff alphabets (generation aid: the number of
+    tabulated letters).  Group 47 is the only one whose alphabet runs past 'z'."""
+    import sys as _sys
+    from harness import env as _env
+    if _env.REPO not in _sys.path[:1]:
+        _sys.path.insert(0, _env.REPO)
+    from matid.data.symmetry_data import WYCKOFF_SETS
+    q = tier == "quick"
+    groups = []
+    for no in range(1, 231):
+        n = len(WYCKOFF_SETS[no])
+        if n >= (15 if q else 12):
+            groups += [no] * (1 if q else 4)
+    groups += [47] * (3 if q else 12)
+    ss = np.random.SeedSequence([seed, tag, 2747])
+    cases = []
+    for cid, (no, child) in enumerate(zip(groups, ss.spawn(len(groups)))):
+        s = int(child.generate_state(1)[0])
+        for j in range(n_pres):
+            cases.append({"kind": "general_first", "crystal": 30_000_000 + cid, "group_no": no, "seed": s, "pres": j, "group": j % 2,
+                          "special_bias": 0.85, "general_first": True})
+    return cases
+
+
 def moved_letters(no):
     """Letters that some tabulated normalizer of the group maps to another letter (generation aid only)."""
     from matid.data.symmetry_data import CHIRALITY_PRESERVING_EUCLIDEAN_NORMALIZERS as NT
@@ -122,15 +163,22 @@ def make_letter_crystal(rng, no, letters, tol, tries=25):
     from ase import Atoms
     table = WYCKOFF_SETS[no]
     discards = {}
+    # elemental variant: ONE element on both letters, two orbits on the first (which must carry a free parameter) and
+    # one on the second - representations that differ only in how many orbits of that element sit on each letter
+    elemental = bool(len(table[letters[0]]["variables"])) and rng.random() < 0.35
+    use = [letters[0], letters[0], letters[1]] if elemental else list(letters)
     for k in range(tries):
         pts = []
-        for l in letters:
+        for l in use:
             vals = {v: float(rng.uniform(0.06, 0.44)) for v in "xyz"}
             pts.append(tuple(np.mod(exprs.evaluate(table[l]["expressions"][0], vals), 1.0)))
         pts.append(tuple(rng.random(3)))
         zs = sorted(int(z) for z in rng.choice(cg.SPECIES, size=3, replace=False))
         symbols = [zs[1], zs[0], zs[2]]          # heavier on the first letter, lighter on the second, heaviest general
+        if elemental:
+            symbols = [zs[0], zs[0], zs[0], zs[2]]
         cellpar = cg.random_cellpar(rng, no)
+        lattice_mode = cg.LAST_LATTICE_MODE
         sc = 1.0 + 0.5 * k / tries
         cellpar = [x * sc for x in cellpar[:3]] + cellpar[3:]
         a = None
@@ -154,8 +202,8 @@ def make_letter_crystal(rng, no, letters, tol, tries=25):
             discards[reason] = discards.get(reason, 0) + 1
             continue
         meta = {"group": no, "cellpar": [round(x, 5) for x in cellpar], "basis": [list(map(float, p_)) for p_ in pts], "symbols": symbols,
-                "orbit_kinds": ["letter_%s" % letters[0], "letter_%s" % letters[1], "general"], "primitive_input": False,
-                "natoms": len(a), "system": cg.crystal_system(no), "tries": k + 1}
+                "orbit_kinds": ["letter_%s" % l for l in use] + ["general"], "elemental_pair": bool(elemental), "primitive_input": False,
+                "natoms": len(a), "system": cg.crystal_system(no), "tries": k + 1, "lattice_mode": lattice_mode}
         return a, meta, discards
     return None, None, discards
 
@@ -165,7 +213,7 @@ _cache = {}
 
 def crystal_for(case):
     """Deterministic regeneration of the crystal (cached per worker) and of the requested presentation."""
-    key = (case["group_no"], case["seed"], case.get("special_bias", 0.5), tuple(case.get("letters", ())))
+    key = (case["group_no"], case["seed"], case.get("special_bias", 0.5), tuple(case.get("letters", ())), case.get("near_metric"), case.get("general_first"))
     if key not in _cache:
         if len(_cache) > 64:
             _cache.clear()
@@ -175,7 +223,8 @@ def crystal_for(case):
         elif case.get("kind") == "fixed":
             _cache[key] = make_fixed_crystal(rng, case["group_no"], case["letters"], TOL)
         else:
-            _cache[key] = cg.make_crystal(rng, case["group_no"], TOL, special_bias=case.get("special_bias", 0.5))
+            _cache[key] = cg.make_crystal(rng, case["group_no"], TOL, special_bias=case.get("special_bias", 0.5), near_metric=case.get("near_metric"),
+                                            general_first=bool(case.get("general_first")))
     atoms, meta, discards = _cache[key]
     if atoms is None:
         return None, None, None, discards
@@ -300,7 +349,8 @@ def run_crystal_case(case, want, exception_monitor, exception_key_prefix):
                    "classes": {"space_group": case["group_no"], "crystal_system": meta["system"], "orbit_kinds": kinds,
                                "presentation": "as_generated" if case["pres"] == 0 else
                                ("supercell" if pinfo.get("det", 1) > 1 else "basis_change/rigid_motion"),
-                               "sohncke": case["group_no"] in sym.sohncke_groups()}}
+                               "sohncke": case["group_no"] in sym.sohncke_groups(),
+                               "lattice": meta.get("lattice_mode", "generic")}}
     out["data"] = {"obs": obs, "generator_discards": discards if case["pres"] == 0 else {}}
     out["sample"] = {"group": case["group_no"], "natoms": len(atoms), "orbits": meta["orbit_kinds"], "symbols": meta["symbols"],
                      "cellpar": meta["cellpar"], "presentation": pinfo,
